@@ -20,8 +20,8 @@ CLAIMED = {
 
 CLAIMED.update({
     "C01": ("exploration", TECH,
-            "Two real replicas (redb in-memory / SimDisk / file) are filled to reachable states and run one complete session through a serialise/deserialise hop, for both initiators, split_factor 2-8, max_set_size 1-8 and age-commit placements inside message processing; oracles: bounded message count, both sides equal join(A0 u B0) from RefDoc, mirrored sent/received counts, silent second session.",
-            "States have at most 24 entries per side; convergence for larger sets rests on the recursion being size independent.", "5 C01"),
+            "Two real replicas (redb in-memory / SimDisk / file) are filled to reachable states and run one complete session through a serialise/deserialise hop, for both initiators, split_factor 2-8, max_set_size 1-8 and age-commit placements inside message processing; half of the runs with keys of one length so that the surviving sets are large enough to split ranges, a third with the shipped configuration; oracles: bounded message count, both sides equal join(A0 u B0) from RefDoc, mirrored sent/received counts, silent second session.",
+            "The decisive batch has at most 24 entries per side; a second batch (pair-large) runs 30-250 entries per side with fixed-length keys (600 runs quick, 30000 thorough).", "5 C01"),
     "C03": ("exploration", TECH,
             "An adversarial transport corrupts honest entries in flight (bit flips in every field and both signatures, swapped/transplanted/foreign signatures, foreign namespace, non-curve ids, empty/len mismatch, short identifiers, one signature copied over the other, new content forged under another author's id by a holder of the document secret, a valid entry of a different document, timestamps at bound-1/bound/bound+1 us with the replica's clock skewed accordingly) and delivers each alone and at a random position of a reconciliation message next to valid entries, through the real store actor with subscribers; nothing forged may be stored, acknowledged or announced, the rest of the message must be applied, indexes and heads must stay consistent.",
             "Forgeries are mutations of honest entries; ed25519 itself is trusted.", "5 C03"),
@@ -62,10 +62,10 @@ CLAIMED.update({
             "The initiating or accepting side runs against a real local store actor over SimPipes; the other side is the real counterpart or a scripted peer sending up to 6 frames over {Init known/unknown, Sync, made-up ranges, Abort, garbage, oversized, truncated} then close; streams are chunked and cut (EOF/reset) after any byte in either direction; the local replica is closed, sync-disabled or its actor shut down before any delivered frame; the accept callback allows or declines. Oracles: no panic (including collecting the acceptor's outcome), termination once nothing is in flight, protocol-violating frames make the session fail, a declined request sends Abort and leaves the store unchanged, mutual success has mirrored counts.",
             "Mirrored counts are only demanded when no stream cut fired (a transport that accepts bytes, drops them and then signals a clean end cannot be detected by either end of this protocol).", "5 C10"),
     "C11": ("exploration", TECH,
-            "Two real LiveActors (real store actors; Endpoint/Gossip/blob store constructed but idle) in either id order; a guarded dial seam hands every dial to the driver which decides delivery, loss or breakage of each request, delivery or loss of declines, and independent ok/failed completion of both ends of each session, plus neighbour-up and sync-report events; safety after every step (no two sessions in progress, exactly one accept on a mutual simultaneous dial, exactly one follow-up dial after a refused news report, NotFound for unknown documents) and progress at quiescence (both idle, able to dial and to accept). A second batch (coord-real) runs every dial as the real run_alice and every delivered request as the real BobState::run + into_outcome over SimPipes that the driver releases frame by frame, cuts or resets.",
+            "Two or three real LiveActors (real store actors; Endpoint/Gossip/blob store constructed but idle) in any id order that sync one or two documents, every (document, pair) being a lane with its own oracles while the other lanes carry traffic; a guarded dial seam hands every dial to the driver which decides delivery, loss or breakage of each request, delivery or loss of declines, and independent ok/failed completion of both ends of each session, plus neighbour-up and sync-report events; safety after every step (no two sessions in progress, exactly one accept on a mutual simultaneous dial, exactly one follow-up dial after a refused news report, NotFound for unknown documents) and progress at quiescence (both idle, able to dial and to accept). A second batch (coord-real) runs every dial as the real run_alice and every delivered request as the real BobState::run + into_outcome over SimPipes that the driver releases frame by frame, cuts or resets.",
             "Connection handling of connect_and_sync / handle_connection is replaced by the seam (in coord the session results are synthetic, in coord-real they come from the real wire sessions). Changing which documents are syncing mid-session is outside the property's quantifier.", "5 C11"),
     "C12": ("exploration", TECH,
-            "One real store actor with 0-4 subscribers (channel capacities 1-32) that the driver drains, pauses, unsubscribes or drops at plan-chosen instants (also while the actor is blocked sending to them); local inserts/deletions, valid/superseded/badly signed remote inserts, reconciliation messages interleaved with local writes, policy changes; every subscriber must have received exactly the applied entries, once, in application order, with the right variant, peer, content status and download flag.",
+            "One real store actor with 0-4 subscribers (channel capacities 1-32) that the driver drains, pauses, unsubscribes or drops at plan-chosen instants (also while the actor is blocked sending to them); local inserts/deletions, valid/superseded/badly signed remote inserts, reconciliation messages interleaved with local writes, policy changes; in half of the runs a neighbouring document of the same store with its own subscriber and policy takes writes and policy changes in between; every subscriber must have received exactly the applied entries, once, in application order, with the right variant, peer, content status and download flag.",
             "A subscriber that never drains is outside the documented contract and is not injected (paused ones are resumed when the actor blocks on them).", "5 C12"),
     "C14": ("exploration", TECH,
             "1-3 clients pipeline 6-60 requests into one real store actor (its unchanged run loop polled on the simulator's paused runtime); every reply is compared with a sequential model applied in send order: handle counting, close result, gates for not-open / sync-off / read-only, sticky sync, FIFO visibility, get-many snapshots consumed after later writes, shutdown returning a store (and a disk image) with every acknowledged write; faults: reply receivers dropped before the answer, streams dropped, flush timer firing between batches, shutdown with requests queued behind it.",
